@@ -125,6 +125,10 @@ DEPFILE = [
     ("x-d", b"$@X@.d"),
     ("space", b"d$ f"),
     ("in-d", b"$in.d"),
+    # the usual `-MF $depfile` idiom: the command refers to the rule's depfile variable, which is built from $out
+    # ($in/$out are shell-quoted inside the command but not in the depfile attribute itself)
+    ("out-d-cmdref", b"$out.d"),
+    ("in-d-cmdref", b"$in.d"),
 ]
 RSP = [
     ("none", None),
@@ -132,6 +136,7 @@ RSP = [
     ("fixed-nl", (b"r.rsp", b"$in_newline")),
     ("x", (b"$out.rsp", b"$@X@ $$ $:")),
     ("x-name", (b"$@X@.rsp", b"$out")),
+    ("out-cmdref", (b"$out.rsp", b"R $in $out")),   # `@$rspfile` in the command
 ]
 POOL = ["none", "rule-pool", "decl-only", "console"]
 # a file-level variable that has the name of a rule variable the rule does NOT bind (file-level is
@@ -283,6 +288,10 @@ def render(a):
             s += b"  # a comment\n"
         if with_vars and lead == "unindented-comment-in-rule":
             s += b"# a comment\n"
+        if with_vars and DEPFILE[g("depfile")][0].endswith("-cmdref"):
+            cmd = cmd + b" -MF $depfile"
+        if with_vars and RSP[g("rsp")][0].endswith("-cmdref"):
+            cmd = cmd + b" @$rspfile"
         s += b"  command = " + X(cmd) + b"\n"
         if with_vars:
             d = DESC[g("desc")][1]
